@@ -22,10 +22,15 @@ func vC01(canary bool) {
 	s := vMkSim(M, R, W, P, 100)
 	w := vMkWarrior(s, P)
 	vHavocCore(s)
-	// the executing task has been popped already: at most P-1 entries remain
-	vHavocQueue(w.pq, M, 0, P-1)
+	// the executing task is at the front of an arbitrary valid ring-buffer
+	// state with 1..P entries and is taken off it by the real Pop, as the
+	// scheduler does before every step
+	vHavocQueue(w.pq, M, 1, P)
 	pc := Address(vU64("pc"))
 	vAssume(pc < M)
+	w.pq.queue[w.pq.start] = pc
+	popped, perr := w.pq.Pop()
+	vAssert("front-task-popped", perr == nil && popped == pc)
 	vSetForm(s, pc)
 
 	ref := vRefFrom(s, w)
